@@ -179,9 +179,29 @@ def progOf (fn : String) (a : List String) : Option (List Step) := do
     pure (progDstuCompress x v (← pN xp) (← pN p) (← pN no))
   | "dstuPointRecover", [p, xp, _, no] =>
     pure (progDstuRecover g v (← pN p) (← pN xp) (← pN no))
+  | "bignKeyWrap", [tok, key, len, h, pub, l, _] => do
+    let h ← pP h
+    pure (progBignKeyWrap fn (← pN tok) (← pN key) (← pN len) (h.getD 0) (← pN pub) ((← pN l) / 4) h.isNone)
+  | "bignKeyUnwrap", [key, tok, len, h, priv, l] => do
+    let h ← pP h
+    pure (progBignKeyUnwrap fn (← pN key) (← pN tok) (← pN len) (h.getD 0) (← pN priv) ((← pN l) / 4) h.isNone)
   | "beltKRP", [d, m, s, n, lev, h] =>
     pure (progKRP g (← pN d) (← pN m) (← pN s) (← pN n) (← pN lev) (← pN h))
   | _, _ => none
+
+/-- generic order program from its description: `d:<0|1>` (domain), `i:<addr>:<n>` (input, in parameter order),
+    `o:<id>:<addr>:<n>` (output) -/
+def progOfDesc (ts : List String) : Option (List Step) := do
+  let mut dom := true
+  let mut ins : List (Nat × Nat) := []
+  let mut outs : List (String × Nat × Nat) := []
+  for t in ts do
+    match t.splitOn ":" with
+    | ["d", v] => dom := v == "1"
+    | ["i", a, n] => ins := ins ++ [((← pN a), (← pN n))]
+    | ["o", id, a, n] => outs := outs ++ [(id, (← pN a), (← pN n))]
+    | _ => none
+  pure (progIO dom ins outs)
 
 def splitBar (ts : List String) : List (List String) :=
   ts.foldr (fun t acc => if t = "|" then [] :: acc else
@@ -197,6 +217,23 @@ def oracleCore (ret : Nat) (vals : List (String × Bytes)) : Core where
 
 def abstractOp (fn : String) (rest : List String) : Option String := do
   match splitBar rest with
+  | [a :: _, a' :: _, r :: vals, desc, desc'] => do
+    let ar ← parseHex a
+    let ar' ← parseHex a'
+    let ret ← pN r
+    let vals ← vals.mapM fun t => match t.splitOn "=" with
+      | [id, hx] => (parseHex hx).map fun b => (id, b)
+      | _ => none
+    let p ← progOfDesc desc
+    let p' ← progOfDesc desc'
+    let c := oracleCore ret vals
+    match run c p ⟨memOf ar.toArray, [], 0⟩, run c p' ⟨memOf ar'.toArray, [], 0⟩ with
+    | some s, some s' =>
+      -- a function that fails (ret ≠ 0) on the disjoint placement writes nothing the model knows of
+      if ret != 0 then pure s!"{ret} {toHex ar}"
+      else if s.tr == s'.tr then pure s!"{s.ret} {dump s.mem ar.length}"
+      else pure s!"miss {dump s.mem ar.length}"
+    | _, _ => pure "undefined"
   | [a :: args, a' :: args', r :: vals] => do
     let ar ← parseHex a
     let ar' ← parseHex a'
